@@ -29,6 +29,10 @@ THEOREMS = [
     "JanetModel.Props.C15.nil_condition_value",
     "JanetModel.Props.C15.movopt_tables_sound_partial",
     "JanetModel.Props.C15.movopt_getindex",
+    "JanetModel.Bytecode.VM.step_core",
+    "JanetModel.Bytecode.VMPasses.remove_noops_preserves",
+    "JanetModel.Bytecode.VMPasses.remove_noops_sourcemap",
+    "JanetModel.Bytecode.VMPasses.removeNoopsFull_get",
     "JanetModel.Bytecode.VMPasses.remove_noops_retarget",
     "JanetModel.Bytecode.VMPasses.pcMap_succ",
     "JanetModel.Bytecode.VMPasses.pcMap_mono",
